@@ -53,7 +53,11 @@ pub fn config_of(scn: &Value, dir: &std::path::Path) -> (Value, Value) {
         "dijkstra" => json!({"type": "dijkstra"}),
         _ => {
             if scn["wf_src"].as_str().unwrap_or("alg") == "alg" {
-                json!({"type": "a*", "weight_factor": jf(&scn["wf"]) / 1000.0})
+                if ji(&scn["wf"]) == 1000 && scn["omit_zero"].as_bool().unwrap_or(false) {
+                    json!({"type": "a*"})
+                } else {
+                    json!({"type": "a*", "weight_factor": jf(&scn["wf"]) / 1000.0})
+                }
             } else {
                 query["weight_factor"] = json!(jf(&scn["wf"]) / 1000.0);
                 json!({"type": "a*", "weight_factor": 7.0})
